@@ -2,7 +2,7 @@
    Model-level characterisations; spec_C13 states all operations (child_nodes, modifier filter,
    unions, category counts, aggregated IC) against the observation and is evaluated on the crate. *)
 From Coq Require Import Sorted.
-From HpoV Require Import Model.Base Model.Group Model.Onto Model.Query Model.HSet Proofs.C13P.
+From HpoV Require Import Model.Base Model.Group Model.Onto Model.Query Model.HSet Proofs.C13P Proofs.C13U.
 
 Theorem C13_without_obsolete : forall o s r, hs_without_obsolete o s = Ok r ->
   StronglySorted N.lt r /\
@@ -35,8 +35,31 @@ Theorem C13_without_modifier : forall o s r, hs_without_modifier o s = Ok r ->
   forall x, In x r <-> In x s /\ exists t, o_get x o = Some t /\ is_modifier o t = false.
 Proof. exact without_modifier_spec. Qed.
 
+(* the aggregates: gene / OMIM / ORPHA ids of a set = the union over its members (a sorted set) *)
+Theorem C13_annotation_ids_are_the_union : forall k o s r,
+  (forall x t, In x s -> o_get x o = Some t -> StronglySorted N.lt (t_annots k t)) ->
+  hs_annot_ids k o s = Ok r ->
+  StronglySorted N.lt r /\ forall g, In g r <-> exists x t, In x s /\ o_get x o = Some t /\ In g (t_annots k t).
+Proof. exact annot_ids_spec. Qed.
+
+(* the aggregated information content is calculate (records, size of that union), genes and OMIM *)
+Theorem C13_information_content_of_the_union : forall icf o s g m, hs_information_content icf o s = Ok (g, m) ->
+  exists gs ms, hs_annot_ids KGene o s = Ok gs /\ hs_annot_ids KOmim o s = Ok ms /\
+    icf (Nlen (o_genes o)) (Nlen gs) = Ok g /\ icf (Nlen (o_omim o)) (Nlen ms) = Ok m.
+Proof. exact information_content_spec. Qed.
+
+(* categories(): one entry per category some member has, counting the members that have it *)
+Theorem C13_category_counts : forall o s r, hs_categories o s = Ok r ->
+  exists ts, resolve_all o s = Ok ts /\
+    forall c n, In (c, n) r <-> (exists t, In t ts /\ In c (categories o t)) /\
+                               n = Nlen (filter (N.eqb c) (concat (map (categories o) ts))).
+Proof. exact categories_count_spec. Qed.
+
 Print Assumptions C13_without_obsolete.
 Print Assumptions C13_with_replaced_obsolete.
 Print Assumptions C13_in_place_equals_copying.
 Print Assumptions C13_child_nodes.
 Print Assumptions C13_without_modifier.
+Print Assumptions C13_annotation_ids_are_the_union.
+Print Assumptions C13_information_content_of_the_union.
+Print Assumptions C13_category_counts.
